@@ -73,6 +73,67 @@ K("C20/text/coord-display", ["C20", "C08"], T + "c20_coord_display_roundtrip", [
 K("C20/types/outcome-filter", ["C20", "C14", "C17"], T + "c20_outcome_filter_table", ["Outcome::is_force", "Outcome::passes", "Outcome::winner", "GameStatus::from"],
   "forced outcomes pass every filter, mandatory draws Strict and Relaxed, claimable draws only Relaxed; status token by winner", pkg=B)
 
+BB = "bitboard::verif_kani::"
+K("C20/bitboard/insert-remove", ["C20"], BB + "c20_bb_insert_remove_member", ["Bitboard::with", "Bitboard::without", "Bitboard::with2", "Bitboard::without2", "Bitboard::set", "Bitboard::unset", "Bitboard::has", "Bitboard::from_coord", "Bitboard::from_raw", "Bitboard::as_raw"],
+  "for all 2^64 sets, all squares c and witness squares i: i in with(c) iff i in a or i == c; i in without(c) iff i in a and i != c; has == membership", pkg=B)
+K("C20/bitboard/boolean-algebra", ["C20"], BB + "c20_bb_boolean_algebra", ["Bitboard::bitand", "Bitboard::bitor", "Bitboard::bitxor", "Bitboard::not", "Bitboard::is_empty", "Bitboard::is_nonempty"],
+  "for all pairs of sets and witness squares: & | ^ ! are intersection, union, symmetric difference, complement (derive_more output, verified as compiled)", pkg=B)
+K("C20/bitboard/len", ["C20"], BB + "c20_bb_len_counts_members", ["Bitboard::len"], "for all 2^64 sets: len == number of member squares", pkg=B)
+K("C20/bitboard/shifts-flips", ["C20", "C18"], BB + "c20_bb_shifts_and_flips", ["Bitboard::shl", "Bitboard::shr", "Bitboard::flipped_rank", "Bitboard::flipped_file"],
+  "for all sets: shl/shr translate members by index; flipped_rank maps square i to i^56, flipped_file to i^7", pkg=B)
+K("C20/bitboard/iter-step", ["C20", "C19"], BB + "c20_bb_iter_step", ["<Iter as Iterator>::next", "Bitboard::into_iter"],
+  "for all sets: next() is None iff empty, else the least member (a valid square), and the remaining set is the old set minus it", pkg=B)
+K("C20/bitboard/iter-all", ["C20"], BB + "c20_bb_iter_ascending_exactly_once", ["<Iter as Iterator>::next"],
+  "for all sets: iteration yields strictly ascending valid squares, every member exactly once, len() of them", pkg=B, timeout=1500)
+K("C20/bitboard/deposit-bits", ["C20"], BB + "c20_bb_deposit_bits", ["Bitboard::deposit_bits"],
+  "for all masks and values: the k-th lowest member of the mask is in the result iff bit k of the value is set; nothing else is", pkg=B, timeout=1500)
+K("C20/consts/lines-colours", ["C20", "C07"], "bitboard_consts::verif_kani::c20_consts_lines", ["bitboard_consts::DIAG", "bitboard_consts::ANTIDIAG", "bitboard_consts::rank", "bitboard_consts::file", "bitboard_consts::LIGHT_SQUARES", "bitboard_consts::DARK_SQUARES"],
+  "for all squares and indices: DIAG[k] has sq iff file+rank == k; ANTIDIAG[k] iff 7-rank+file == k; rank(k)/file(k) iff that coordinate is k; LIGHT iff file+rank even, DARK iff odd (a1 dark)", pkg=B)
+K("C20/geometry/ranks-deltas", ["C20", "C18", "C03"], "geometry::verif_kani::c20_geometry_ranks_and_deltas", ["geometry::castling_rank", "geometry::double_move_src_rank", "geometry::double_move_dst_rank", "geometry::promote_src_rank", "geometry::promote_dst_rank", "geometry::enpassant_src_rank", "geometry::enpassant_dst_rank", "geometry::pawn_forward_delta", "geometry::pawn_left_delta", "geometry::pawn_right_delta"],
+  "White's home rank is 1, Black's 8; the named ranks are 1,3,4,5,6,7 forward steps from the home rank; left/right = forward -/+ 1; every constant of one colour is the rank mirror of the other's", pkg=B)
+
+# ---------------------------------------------------------------------------------------------
+# C15 attack and between tables (tables of the build under test: Kani runs build.rs)
+# ---------------------------------------------------------------------------------------------
+A = "attack::verif_kani::"
+K("C15/attack/leapers-pawns", ["C15", "C19"], A + "c15_leapers_and_pawns", ["attack::king", "attack::knight", "attack::pawn"],
+  "for all 64 squares (both colours): king/knight/pawn attack sets == the sets of on-board squares at the king / knight / pawn-capture offsets; table index in bounds")
+K("C15/attack/bishop", ["C15", "C19"], A + "c15_bishop_all_squares_all_occupancies", ["attack::bishop"],
+  "for all 64 squares x all 2^64 occupancies: bishop(sq, occ) == squares reached by sliding diagonally up to and including the first occupied square; lookup pointer in bounds", timeout=1800)
+K("C15/attack/rook-masked-read", ["C15", "C19"], A + "c15_rook_reads_only_masked_occupancy", ["attack::rook", "attack::bishop"],
+  "for all squares x all 2^64 occupancies: rook(sq, occ) == rook(sq, occ & mask[sq]) (same for bishop); every lookup pointer in bounds", timeout=1800)
+K("C15/attack/rook-relevant-occupancy", ["C15"], A + "c15_rook_relevant_occupancy_lemma", ["attack::MAGIC_ROOK[..].mask"],
+  "for all squares x all 2^64 occupancies: sliding along rank and file sees the occupancy only through occ & mask[sq]; mask[sq] == own rank and file minus the far edge squares minus sq", timeout=1800)
+N("C15/attack/rook-mask-subsets", ["C15"], A + "n15_rook_enumerate_all_mask_subsets", ["attack::rook"],
+  "for all 64 squares and all 102400 subsets of mask[sq]: rook(sq, subset) == sliding reference (exhaustive native evaluation of the real lookup)",
+  assumes=["C15/attack/rook-masked-read", "C15/attack/rook-relevant-occupancy"])
+N("C15/attack/bishop-mask-subsets", ["C15"], A + "n15_bishop_enumerate_all_mask_subsets", ["attack::bishop"],
+  "redundant cross-check: for all squares and all subsets of the bishop mask, bishop == sliding reference (exhaustive native evaluation)", tier="thorough")
+for _i in range(64):
+    K("C15/attack/rook-sq%02d" % _i, ["C15", "C19"], A + "c15_rook_sq%02d" % _i, ["attack::rook"],
+      "square %d x all 2^64 occupancies: rook == sliding reference, lookup pointer in bounds (direct CBMC proof)" % _i, tier="thorough", timeout=3600)
+K("C15/between/all-pairs", ["C15", "C19"], "between::verif_kani::c15_between_all_pairs", ["between::bishop_strict", "between::rook_strict", "between::is_bishop_valid", "between::is_rook_valid"],
+  "for all 64x64 pairs: is_bishop_valid iff distinct on a common diagonal, is_rook_valid iff distinct on a common rank/file; for aligned pairs *_strict(a,b) == *_strict(b,a) == squares strictly between")
+K("C15/between/spec-link", ["C15"], "between::verif_kani::c15_between_ref_is_sliding_geometry", [],
+  "spec-level lemma: strictly-between == intersection of the two slides towards each other (reference self-consistency)")
+K("C15/castling/masks", ["C15", "C03", "C06", "C18"], "castling::verif_kani::c15_castling_masks", ["castling::pass", "castling::srcs", "castling::offset", "castling::ALL_SRCS", "generic::Color::CASTLING_OFFSET"],
+  "both colours: pass == squares strictly between king and rook; srcs == home squares of king and rook; offsets are the home rank")
+K("C15/pawns/advances", ["C15", "C18"], "pawns::verif_kani::c15_pawn_advances", ["pawns::advance_forward", "pawns::advance_left", "pawns::advance_right"],
+  "for all 2^64 pawn sets, both colours, witness square t: t in advance_X(set) iff the square one pawn step X back from t is on the board and in the set")
+
+# ---------------------------------------------------------------------------------------------
+# C16 attack and check queries
+# ---------------------------------------------------------------------------------------------
+TABLES = ["C15/attack/leapers-pawns", "C15/attack/bishop", "C15/attack/rook-masked-read", "C15/attack/rook-relevant-occupancy", "C15/attack/rook-mask-subsets"]
+MG = "movegen::verif_kani::"
+for _c in ("white", "black"):
+    K("C16/attackers/%s" % _c, ["C16", "C19"], MG + "c16_attackers_%s" % _c, ["movegen::do_cell_attackers", "movegen::do_is_cell_attacked", "movegen::cell_attackers", "movegen::is_cell_attacked", "Board::piece2", "Board::piece_diag", "Board::piece_line"],
+      "for all well-formed boards (any men, any counts) x 64 squares: attackers(sq, %s) == the men of that colour that could capture on sq by a pseudo-legal non-en-passant capture (reference walk from the square); is_attacked == non-empty" % _c,
+      assumes=TABLES)
+K("C16/check-queries", ["C16", "C19"], MG + "c16_check_queries", ["Board::is_check", "Board::checkers", "Board::is_opponent_king_attacked", "Board::king_pos"],
+  "for all well-formed boards with one king each: king_pos is the king's square (unwrap never fails), checkers == attackers of the mover's king, is_check == non-empty, is_opponent_king_attacked == the other king is attacked by the mover",
+  assumes=TABLES)
+
 
 def by_id():
     return {o["id"]: o for o in OBS}
